@@ -293,7 +293,9 @@ theorem reachable_header_ok (env : Env) (s : State) (a : Option ProposerAction) 
   exact ⟨⟨hdr, hh⟩, ReachL.nextUnsealed_total env ss hdr hh⟩
 
 /-- **C09 for reachable states**: the structural part of `ApplyPre` is discharged; what remains are the
-    hash-freshness assumption, the supply bound and the three explicitly excluded dependency-crate findings -/
+    hash-freshness assumption, the supply bound and the two explicitly excluded findings (MelPoW panics, DOSC
+    reward overflow).  The former hypothesis `weights` (F19, covenant weight sum) is gone: since the fix
+    `loadRelevantCoins` rejects a batch with such a transaction (`C09_heavy_covenants_rejected`). -/
 theorem C09_apply_total_reachable (env : Env) (s : State) (txs : List Tx) (fb : Header)
     (h : Reachable env s)
     /- ADDED, as in `reachable_inv` -/
@@ -302,7 +304,6 @@ theorem C09_apply_total_reachable (env : Env) (s : State) (txs : List Tx) (fb : 
     (bounded : (s.coins.coins.map (·.2.coinData.value)).sum + ((txs.flatMap (·.outputs)).map (·.value)).sum ≤ U128_MAX)
     (powTotal : ∀ a b c d, env.powOk a b c d ≠ .panics)
     (powDifficulty : ∀ a b c d, env.powOk a b c d ≠ .invalid → c ≤ 100)
-    (weights : ∀ t ∈ txs, (t.covenants.map covenantWeightFromBytes).sum ≤ U128_MAX)
     (rewardFits : ∀ hdr, s.history.get (s.height - 1) = some hdr → ∀ a b d t, env.powOk a b d t ≠ .invalid →
       microergsIter s.height * maxDoscReward d hdr.doscSpeed / MICRO_CONVERTER ≤ U128_MAX) :
     ∀ c, applyBatch env s txs fb ≠ .crash c :=
@@ -310,7 +311,7 @@ theorem C09_apply_total_reachable (env : Env) (s : State) (txs : List Tx) (fb : 
   C09_apply_total env s txs fb
     { counts := (CountsSound_iff _).mpr (hi.counts h906), fresh := hf.fresh, heights := hi.heights,
       bounded := bounded, speeds := hi.speeds, historyBelow := hi.historyBelow, powTotal := powTotal,
-      powDifficulty := powDifficulty, weights := weights, rewardFits := rewardFits }
+      powDifficulty := powDifficulty, rewardFits := rewardFits }
 
 set_option linter.unusedVariables false in
 /-- **C03 for reachable states**: order independence needs, beyond reachability, only the hash assumptions -/
